@@ -33,6 +33,11 @@ func rulesC09(c *Ctx) {
 
 // sendEvents classifies sends on channel-typed variables of the function / closure.
 func sendEvents(fi *FuncInfo, extra func(n ast.Node) []Event) func(n ast.Node) []Event {
+	return sendEventsRole(fi, extra, nil)
+}
+
+// sendEventsRole: as sendEvents, with the channel named by role(chan) when role is given.
+func sendEventsRole(fi *FuncInfo, extra func(n ast.Node) []Event, role func(ast.Expr) string) func(n ast.Node) []Event {
 	info := fi.Pkg.TypesInfo
 	return func(n ast.Node) []Event {
 		var out []Event
@@ -43,6 +48,9 @@ func sendEvents(fi *FuncInfo, extra func(n ast.Node) []Event) func(n ast.Node) [
 			switch x := m.(type) {
 			case *ast.SendStmt:
 				ch := types.ExprString(x.Chan)
+				if role != nil {
+					ch = role(x.Chan)
+				}
 				v := classifyValue(info, fi.Decl, x.Value, 0)
 				if isNilIdent(info, x.Value) {
 					v = "nil"
@@ -62,37 +70,32 @@ func ruleDispatchTable(c *Ctx) {
 	if fi == nil {
 		return
 	}
-	info := fi.Pkg.TypesInfo
-	// the receive closure: a func literal started with `go` that calls Recv on the stream parameter
+	// the receive goroutine: a closure or a method started with `go` that calls Recv on the stream
 	var loop *ast.ForStmt
-	ast.Inspect(fi.Decl.Body, func(n ast.Node) bool {
-		gs, ok := n.(*ast.GoStmt)
-		if !ok {
-			return true
-		}
-		fl, ok := gs.Call.Fun.(*ast.FuncLit)
-		if !ok {
-			return true
-		}
+	var gb *bodyRef
+	for _, br := range goBodies(fi) {
 		hasRecv := false
-		for _, call := range callsIn(fl.Body) {
+		for _, call := range callsIn(br.Body) {
 			if se, ok := ast.Unparen(call.Fun).(*ast.SelectorExpr); ok && se.Sel.Name == "Recv" {
 				hasRecv = true
 			}
 		}
 		if hasRecv {
-			for _, st := range fl.Body.List {
+			for _, st := range br.Body.List {
 				if f, ok := st.(*ast.ForStmt); ok && f.Cond == nil {
-					loop = f
+					loop, gb = f, br
 				}
 			}
 		}
-		return true
-	})
+	}
 	if loop == nil {
 		c.vanished("TABLE-DISPATCH", fi.Name, "receive loop", "no goroutine reading the stream in a loop found")
 		return
 	}
+	outer := fi
+	fi = gb.FI // the function the loop is written in (Modify itself for a closure)
+	info := fi.Pkg.TypesInfo
+	role := func(a ast.Expr) string { return dispatchArgVia(outer, gb, a) }
 	calls := func(n ast.Node) []Event {
 		var out []Event
 		inspectNoFuncLit(n, func(m ast.Node) bool {
@@ -103,7 +106,7 @@ func ruleDispatchTable(c *Ctx) {
 					case "checkParams", "updateParams", "runElection", "doModify":
 						var as []string
 						for _, a := range x.Args {
-							as = append(as, dispatchArg(info, fi, a))
+							as = append(as, role(a))
 						}
 						out = append(out, Event{Kind: f.Name() + "(" + strings.Join(as, ",") + ")", Node: x})
 					}
@@ -130,9 +133,26 @@ func ruleDispatchTable(c *Ctx) {
 	aUP := eqAtom("call:updateParams#1", "nil")
 	aRE := eqAtom("call:runElection#1.1", "nil")
 	flag := "first-message-flag=true"
+	// a sent local is named by what it holds on the path (the handler's own response / error)
+	var pe *pathEnum
+	outcome := func(p Path) string {
+		q := p
+		q.Events = nil
+		for _, e := range p.Events {
+			k := e.Kind
+			if ss, ok := e.Node.(*ast.SendStmt); ok && pe != nil {
+				if id, ok := ast.Unparen(ss.Value).(*ast.Ident); ok && strings.Contains(k, "←var:") {
+					k = k[:strings.Index(k, "←")] + "←" + p.TermAtEnd(pe, id)
+				}
+			}
+			q.Events = append(q.Events, Event{Kind: k, Node: e.Node})
+		}
+		return defaultOutcome(info, fi.Decl, q)
+	}
 	runTable(c, tableSpec{
 		Rule: "TABLE-DISPATCH", Fn: fi, Body: loop.Body.List, Construct: "Modify receive loop: dispatch and termination",
-		Events: sendEvents(fi, calls),
+		Outcome: outcome, PE: &pe,
+		Events: sendEventsRole(fi, calls, role),
 		Atoms:  map[string]int{aEOF: 2, aErr: 2, aIn: 2, aP: 2, aE: 2, aO: 2, aCP: 2, aUP: 2, aRE: 2},
 		Expected: func(v *Valuation) (string, bool) {
 			ret := func(evs ...string) string { return "ret() effects[" + strings.Join(evs, ",") + "]" }
@@ -151,23 +171,41 @@ func ruleDispatchTable(c *Ctx) {
 				return ret("errCh←err(InvalidArgument)"), true
 			case hasP:
 				if !v.B(aCP) {
-					return ret(chk, "errCh←var:err"), true
+					return ret(chk, "errCh←call:checkParams#1.1"), true
 				}
 				if !v.B(aUP) {
 					return ret(chk, upd, "errCh←call:updateParams"), true
 				}
-				return loops(chk, upd, flag, "resultChan←var:res"), true
+				return loops(chk, upd, flag, "resultChan←call:checkParams#1.0"), true
 			case hasE:
 				if !v.B(aRE) {
-					return ret("runElection(session,msg.ElectionId)", "errCh←var:err"), true
+					return ret("runElection(session,msg.ElectionId)", "errCh←call:runElection#1.1"), true
 				}
-				return loops("runElection(session,msg.ElectionId)", flag, "resultChan←var:res"), true
+				return loops("runElection(session,msg.ElectionId)", flag, "resultChan←call:runElection#1.0"), true
 			case hasO:
 				return loops("doModify(session,msg.Operation,resultChan,errCh)", flag), true
 			}
 			return ret("errCh←err(Unimplemented)"), true
 		},
 	})
+}
+
+// dispatchArgVia names an argument by role, mapping the parameters of a
+// goroutine body that is a declared function back to the arguments of the go statement.
+func dispatchArgVia(outer *FuncInfo, gb *bodyRef, a ast.Expr) string {
+	info := gb.FI.Pkg.TypesInfo
+	if gb.Lit == nil {
+		if obj, path := selectorPath(info, a); obj != nil {
+			if arg, ok := gb.ArgOf[obj]; ok {
+				r := dispatchArg(outer.Pkg.TypesInfo, outer, arg)
+				if len(path) > 0 {
+					r += "." + strings.Join(path, ".")
+				}
+				return r
+			}
+		}
+	}
+	return dispatchArg(info, gb.FI, a)
 }
 
 // dispatchArg names an argument of a handler call by role.
@@ -193,6 +231,14 @@ func dispatchArg(info *types.Info, fi *FuncInfo, a ast.Expr) string {
 		if b, ok := v.Type().Underlying().(*types.Basic); ok && b.Info()&types.IsBoolean != 0 {
 			role = "first-message-flag"
 		}
+		if ch, ok := v.Type().Underlying().(*types.Chan); ok {
+			switch {
+			case isNamed(ch.Elem(), spbPath, "ModifyResponse"):
+				role = "resultChan"
+			case types.Identical(ch.Elem(), types.Universe.Lookup("error").Type()):
+				role = "errCh"
+			}
+		}
 	}
 	if len(path) > 0 {
 		role += "." + strings.Join(path, ".")
@@ -214,7 +260,9 @@ func ruleCheckParamsTable(c *Ctx) {
 	aConsErr := eqAtom("call:checkClientsConsistent#1.1", "nil")
 	aCons := "b:call:checkClientsConsistent#1.0"
 	aSet := eqAtom("call:setClientParams#1", "nil")
-	e := func(code, reason string) string { return "ret(nil, err(" + code + "/ModifyRPCErrorDetails_" + reason + "))" }
+	e := func(code, reason string) string {
+		return "ret(nil, err(" + code + "/ModifyRPCErrorDetails_" + reason + "))"
+	}
 	runTable(c, tableSpec{
 		Rule: "TABLE-CHECK-PARAMS", Fn: fi, Construct: "checkParams decision table",
 		Events: ribCallEvents(fi),
